@@ -527,6 +527,38 @@ class C12Prop(LineFileBase):
             body += ["lines", "save " + enc_str("\n")]
             yield self.mk(variant, content, body)
 
+    # mutable *record* files whose records have a text of their own (CSV / TSV / JSON): edited, saved with a chosen line
+    # ending, bytes of the saved file and of the source compared, reopened — the scenario of C13's harness, judged by its
+    # oracle only (the Lean model of C12 is about lists of strings: a record whose text is the line itself)
+    n_recfile = {"quick": 150, "thorough": 800, "search": 600}
+
+    def extra_scenarios(self, rng, tier):
+        return [{"kind": "recfile", "seed": rng.randrange(1 << 30)} for _ in range(self.n_recfile.get(tier, 150))]
+
+    def run_extra(self, desc):
+        import random
+        from .C13 import Prop as RecProp
+        rp = getattr(self, "_recprop", None)
+        if rp is None:
+            rp = self._recprop = RecProp()
+            rp.scratch = None
+        try:
+            r = core.call_with_alarm(lambda: rp.recfile(random.Random(desc["seed"])), 20.0)
+        except core.Timeout:
+            r = "the scenario did not finish within 20 s"
+        except Exception as e:  # noqa
+            r = f"{type(e).__name__}: {e}"
+        return None if r == "ok" else f"mutable record file scenario (seed {desc['seed']}): {str(r)[:1500]}"
+
+    def main(self, tier, seed, replay=None):
+        try:
+            return LineFileBase.main(self, tier, seed, replay)
+        finally:
+            rp = getattr(self, "_recprop", None)
+            if rp is not None and rp.scratch is not None:
+                core.cleanup_dir(rp.scratch)
+                rp.scratch = None
+
     def key(self, case, impl_out):
         if len(case.ops) >= 5 and any(o.split()[0] in ("set", "del", "insert", "append", "extend", "iadd", "pop", "remove", "reverse")
                                       for o in case.ops):
